@@ -20,6 +20,9 @@ CHECKS = {
     "C11": ("fault_enumeration", "runtime monitoring with fault enumeration: life-cycle histories under ASan+LSan/TSan with hook/late-callback/descriptor/thread balance monitors; every k-th calloc/epoll_create1/pipe2/epoll_ctl/pthread_create of pool creation failed via link-time interposers",
             "Every resource acquisition of tp_create+tp_threads_create (counted by a dry run) is failed one at a time for every k and every kind for pools of 1, 2, 4 (16 in thorough) and the outcome checked (error returned, nothing left behind, hooks balanced); on top, seeded histories over create/threads_create/attach_first/shutdown (main, external, pool thread, concurrent)/wait/destroy incl. illegal orders with in-flight senders, timers and read events, perturbed at the guarded points.",
             TP_NOTE + "; descriptor/thread balance read from /proc/self", "DESIGN.md 4 C11"),
+    "C06": ("exploration", "runtime monitoring: link-time interposers observe what reaches timerfd_create/timerfd_settime/epoll_ctl; online shadow-state monitor on the owning pool thread judges every callback of random add/enable/disable/delete/ready/close histories; ASan+UBSan and TSan builds",
+            "Held on the cases explored: every (value, unit, relative/absolute, periodic/one-shot/dispatch) timer request incl. unit boundaries must program exactly the equivalent itimerspec/clock; every malformed registration (flag/filter/ident/NULL combinations) must be refused without reaching the kernel and well-formed ones installed; hundreds of seeded histories over pipes, socketpairs (incl. half-close), timers and child processes, where a callback contradicting the shadow state (disabled, deleted, one-shot already fired, dispatch not re-enabled, wrong EOF flag) is a violation when it happens and expected firings are bounded-progress checked.",
+            TP_NOTE + "; cross-thread enable/disable is not gated; absolute periodic interval not asserted", "DESIGN.md 4 C06"),
     "C15": ("exploration", "runtime monitoring: library-built DNS/RADIUS messages executed under ASan+UBSan in exact-size buffers, every observation compared with independent RFC 1035/6891 and RFC 2865/2869 reference encoders (hashlib MD5/HMAC)",
             "Held on the cases explored: DNS build sequences compared byte-for-byte with a reference encoder, validated and parsed back; name/label round trips with buffer sizes swept around the need; RADIUS build/sign/verify against reference authenticators, password hiding at every 16-octet edge 0..128, wrong secrets and single-octet corruptions of signed packets (all octets x 3 masks in thorough) judged by what RFC processing must detect.",
             "trusted: Python hashlib/hmac, the reference encoders (self-tested on RFC 2865 7.1 packets and RFC 2202 vectors in setup); names outside 1..253 octets and attributes whose semantics the library does not document are recorded but not judged",
